@@ -276,6 +276,42 @@ def main():
         chk.bounds.append('ScalarBaseMult / scalarBaseMultVartime: all s in [0,n) (32 symbolic bytes: every nibble/byte value in every position, zero windows included), arbitrary prior receiver content')
         chk.notes.append('both lookups: portable Go executed here; the SSE2 routines are equal to them by C19')
 
+    # ---------------------------------------------------------------- 3. every private scalar d is mapped to the public point d*G
+    def t_keys(sub):
+        from . import toy as T, stubs
+        from .c20 import reachable
+        toy = T.get_toy(43, 31)
+
+        def h(ctx):
+            stubs.NARROW['on'] = True
+            m = new_machine(prog, ctx, gl, value_model=True)
+            T.install(m, toy)
+            d = tm.var('d', T.W)
+            ctx.assume(tm.ult(d, toy.n, T.W))
+            s_in = T.new_scalar(m, d)
+            k, err = m.call(MOD + '/secec.NewPrivateKeyFromScalar', [s_in])
+            sub.note_machine(m)
+            if err is not None:
+                ctx.check(tm.eq(d, 0, T.W), 'bv:error-only-for-d=0')
+                return 'err'
+            ctx.check(tm.bnot(tm.eq(d, 0, T.W)), 'bv:d=0-rejected')
+            pub = T.fld(m, k, T.PRIV_T, 'publicKey')
+            ctx.check(tm.eq(m.toy_pget(T.fld(m, pub, T.PUB_T, 'point')), d, T.W), 'bv:public-point=d*G')
+            ctx.check(tm.eq(m.toy_sval(T.fld(m, k, T.PRIV_T, 'scalar')), d, T.W), 'bv:stored-scalar=d')
+            from .common import cat_bytes
+            want = [4] + T.be32(toy.X(d)) + T.be32(toy.Y(d))
+            ctx.check(tm.eq(cat_bytes(m.slice_elems(T.fld(m, pub, T.PUB_T, 'pointBytes'))), cat_bytes(want), 520), 'bv:public-bytes=encoding-of-d*G')
+            # the mapping must persist: the key does not share memory with the caller's scalar
+            rk, rs = reachable(k), reachable(s_in)
+            sh = [rk[i].label for i in rk if i in rs and not rk[i].is_global]
+            ctx.check(not sh, 'key-does-not-alias-the-callers-scalar')
+            return 'ok'
+        paths = sub.explore('key/NewPrivateKeyFromScalar', h, mode='bv')
+        sub.add('key/NewPrivateKeyFromScalar/witness', [], {p.value for p in paths} == {'ok', 'err'})
+    if not only or 'key' in only:
+        tasks.append(('keys', t_keys))
+        chk.bounds.append('NewPrivateKeyFromScalar: toy curve (43,31), all d; public point, cached encoding, separation from the caller-owned scalar')
+
     chk.run_tasks(tasks)
     chk.discharge()
     chk.finish()
